@@ -22,7 +22,10 @@ import (
 type chCase struct {
 	// polling | websocket | webtransport | up-websocket | up-webtransport (conformant upgrade first) |
 	// eager-websocket | eager-webtransport: an eager client switches while its poll's response, carrying a Send with
-	// a callback, is still being written (the polling writer is held), another Send with a callback being buffered
+	// a callback, is still being written (the polling writer is held), another Send with a callback being buffered |
+	// fast-polling: a polling client that polls again the moment a response has arrived, while the server goroutine
+	// that wrote the response has not come back from its write: two hand-offs (and their callback groups) are
+	// outstanding at once
 	Carrier string
 	Rev     int
 	Batches [][]string // per batch, per Send: plain | resend | linger | resendLinger | nocb | closer (its callback closes the session: Close(true))
@@ -35,7 +38,7 @@ func (c chCase) String() string {
 
 func genCH(rt *rapid.T) chCase {
 	c := chCase{Rev: 4}
-	c.Carrier = rapid.SampledFrom([]string{"polling", "websocket", "websocket", "webtransport", "up-websocket", "up-webtransport", "eager-websocket", "eager-webtransport"}).Draw(rt, "carrier")
+	c.Carrier = rapid.SampledFrom([]string{"polling", "websocket", "websocket", "webtransport", "up-websocket", "up-webtransport", "eager-websocket", "eager-webtransport", "fast-polling"}).Draw(rt, "carrier")
 	if !strings.Contains(c.Carrier, "webtransport") && rapid.IntRange(0, 3).Draw(rt, "rev3") == 0 {
 		c.Rev = 3
 	}
@@ -79,6 +82,10 @@ func runCH(c chCase) (fail string, stats map[string]bool) {
 	}
 	car := strings.TrimPrefix(strings.TrimPrefix(c.Carrier, "up-"), "eager-")
 	eager := strings.HasPrefix(c.Carrier, "eager-")
+	fast := c.Carrier == "fast-polling"
+	if fast {
+		car = "polling"
+	}
 	var s *c06Sess
 	if eager {
 		var why string
@@ -99,7 +106,7 @@ func runCH(c chCase) (fail string, stats map[string]bool) {
 		s = &c06Sess{wc: wc, tc: tc, open: s.open}
 	} else {
 		var why string
-		s, why = doHandshake(w, c06HS{Carrier: c.Carrier, EIO: eio})
+		s, why = doHandshake(w, c06HS{Carrier: car, EIO: eio})
 		if s == nil {
 			return "harness: handshake: " + why, stats
 		}
@@ -215,6 +222,36 @@ func runCH(c chCase) (fail string, stats map[string]bool) {
 					held = true
 				}
 			}
+		}
+		if fast && len(batch) >= 2 {
+			// the first half leaves with a poll whose response reaches the client in full while the goroutine that
+			// wrote it is still inside its Write; the client polls again at once and takes the second half
+			half := len(batch) / 2
+			for _, k := range batch[:half] {
+				send(k)
+			}
+			hold := make(chan struct{})
+			first := s.pc.StartPollMod(func(r *ReqSpec) { r.HoldAfterBody = hold })
+			Settle()
+			first.mu.Lock()
+			heldBody := first.HeldBody
+			first.mu.Unlock()
+			s.pc.Pump()
+			for _, k := range batch[half:] {
+				send(k)
+			}
+			if heldBody {
+				w.OverlappingHandOffs = true
+				stats["next-poll-served-before-the-previous-response's-writer-came-back"] = true
+			}
+			// the second poll's hand-off waits for the transport's send lock, which the first writer still holds: a
+			// goroutine waiting for a mutex never counts as quiescent, so give everybody the processor instead
+			s.pc.StartPoll()
+			linger()
+			close(hold)
+			Settle()
+			s.pc.Pump()
+			batch = nil
 		}
 		for _, k := range batch {
 			send(k)
@@ -341,7 +378,7 @@ func TestC18CallbackChains(t *testing.T) {
 			rt.Fatalf("%v: %s", c, clipStr(res.Leak, 1500))
 		}
 	})
-	col.RequireClasses(t, "ev.batch>=2", "send-from-lingering-callback", "batch-buffered-behind-held-writer", "carrier.polling", "carrier.websocket", "carrier.webtransport", "carrier.up-websocket", "carrier.eager-websocket", "carrier.eager-webtransport", "switch-while-a-poll-response-with-a-callback-is-being-written", "session-closed-from-a-send-callback")
+	col.RequireClasses(t, "next-poll-served-before-the-previous-response's-writer-came-back", "carrier.fast-polling", "ev.batch>=2", "send-from-lingering-callback", "batch-buffered-behind-held-writer", "carrier.polling", "carrier.websocket", "carrier.webtransport", "carrier.up-websocket", "carrier.eager-websocket", "carrier.eager-webtransport", "switch-while-a-poll-response-with-a-callback-is-being-written", "session-closed-from-a-send-callback")
 }
 
 // eagerUpgrade: the candidate probes, gets its pong and sends the upgrade packet at once, without waiting for the
